@@ -215,6 +215,10 @@ func processPicture(picture string, format *DecimalFormat, isNegative bool) (sub
 		return subpictureVariables{}, fmt.Errorf("picture string must contain 1 or 2 subpictures")
 	}
 
+	if pic2 == "" && strings.ContainsRune(picture, format.PatternSeparator) {
+		return subpictureVariables{}, fmt.Errorf("picture string must contain 1 or 2 subpictures")
+	}
+
 	vars1, err := processSubpicture(pic1, format)
 	if err != nil {
 		return subpictureVariables{}, err
